@@ -190,3 +190,6 @@ package engine
 //@ props C20
 //@ modifies nothing
 //@ ensures ncalls(os.ReadFile) == 1 && (callres(os.ReadFile, 0, 1) != nil <==> result2 != nil)
+// the script text handed on is the conversion of what was read (no rewriting in between): stated as far as
+// the model of string([]byte) carries - the same length - which any insertion or removal of bytes breaks
+//@ ensures result2 == nil ==> len(result1) == len(callres(os.ReadFile, 0, 0))
